@@ -48,7 +48,7 @@ BUILTIN_NAMES = ["id", "zip", "type", "len", "print", "dir", "max", "min", "sum"
 BINDERS = ["builtin", "import_dotted", "assign", "tuple", "star", "chain", "annassign", "import_as", "from_import_as", "import_plain", "def", "class", "for", "for_after",
            "with", "with_after", "except", "walrus", "walrus_if", "global", "param", "param_posonly", "param_kwonly", "param_default",
            "param_varargs", "param_kwargs", "augassign_after_assign", "nested_tuple", "for_tuple", "with_tuple", "list_target",
-           "attr_then_name", "while_walrus"]
+           "attr_then_name", "while_walrus", "global_in_method", "global_in_nested", "global_in_nested_class"]
 SCOPES = ["module", "function", "class", "nested_function", "class_in_function", "module_probe_in_function", "module_probe_in_nested",
           "function_probe_in_nested", "module_probe_in_class", "if_block", "try_block", "loop_block", "with_block", "match_block"]
 INVALID_LAST = ["x = = 1", "def (", "ls -l )", "if:", "echo 'a", "for in x:", "1 +", "class :", "a b c )(", "x = (", "return return", "]", "$[", "@(",
@@ -190,6 +190,13 @@ def bind(kind, N):
         return ["while (" + N + " := " + v + ") is None:", "    pass"], "after"
     if kind == "global":
         return ["def g9():", "    global " + N, "    " + N + " = " + v, "g9()"], "after"
+    if kind == "global_in_method":
+        return ["class G9:", "    def m(self):", "        global " + N, "        " + N + " = " + v, "G9().m()"], "after"
+    if kind == "global_in_nested":
+        return ["def g9():", "    def g8():", "        global " + N, "        " + N + " = " + v, "    g8()", "g9()"], "after"
+    if kind == "global_in_nested_class":
+        return ["def g9():", "    class G8:", "        def m(self):", "            global " + N, "            " + N + " = " + v,
+                "    G8().m()", "g9()"], "after"
     if kind == "augassign_after_assign":
         return [N + " = " + v, N + " -= b"], "after"
     if kind == "nested_tuple":
@@ -249,7 +256,7 @@ def build(binder, scope, probes, N):
     if scope == "module_probe_in_nested":
         return blines + ["def f1():", "    def f2():"] + _ind(plines, 2) + ["    f2()", "f1()"]
     if scope == "function_probe_in_nested":
-        if binder == "global":
+        if binder.startswith("global"):
             return None
         return ["def f1():"] + _ind(blines) + ["    def f2():"] + _ind(plines, 2) + ["    f2()", "f1()"]
     if scope == "module_probe_in_class":
